@@ -472,8 +472,8 @@ class FnText:
         self.text = self.text[:a] + head + first + self.text[b:]
         self._scan()
 
-    def index_for(self, ordinal, idx="verif_k", by_value=False):
-        """rule R9-index: `for P in E.iter() { B }` / `for P in &E { B }` (E a Vec or slice) ->
+    def index_for(self, ordinal, idx="verif_k", by_value=False, by_ref_binding=False):
+        """rule R9-index: `for P in E.iter() { B }` / `for P in &E { B }` (E a Vec or slice; with by_ref_binding also `for P in E` where E is a variable bound to a `&Vec`) ->
         `let mut idx: usize = 0; while idx < E.len() { let P = &E[idx]; idx = idx + 1; B }`   (B verbatim; `continue`/`break` keep their meaning)
         The loop keeps its ordinal."""
         ls = self.loops()
@@ -496,7 +496,7 @@ class FnText:
             raise RsxError("for without in")
         pat = self.text[toks[kw + 1].a:toks[pos_in - 1].b]
         expr = self.text[toks[pos_in + 1].a:toks[brace - 1].b].strip()
-        m = re.fullmatch(r"(.+?)\s*\.iter\(\)", expr, re.S) or re.fullmatch(r"&\s*(.+)", expr, re.S)
+        m = re.fullmatch(r"(.+?)\s*\.iter\(\)", expr, re.S) or re.fullmatch(r"&\s*(.+)", expr, re.S) or (by_ref_binding and re.fullmatch(r"(\w+)", expr))
         if not m:
             raise RsxError("for loop %d does not iterate `E.iter()` or `&E`: %r" % (ordinal, expr))
         e = m.group(1).strip()
